@@ -94,6 +94,45 @@ func (l *Literal) ToComparableString() string {
 	return s
 }
 
+// Compare orders two literals by value: it returns -1, 0 or 1 if l is smaller
+// than, equal to or greater than o. Literals of different types are ordered by
+// their type (bool, int64, float64, text, blob). Numbers compare numerically
+// (NaN sorts before every other float64 and equals itself; -0 equals 0), false
+// sorts before true, text and blobs compare bytewise.
+func (l *Literal) Compare(o *Literal) int {
+	sign := func(lt, gt bool) int {
+		switch {
+		case lt:
+			return -1
+		case gt:
+			return 1
+		}
+		return 0
+	}
+	if l.t != o.t {
+		return sign(l.t < o.t, l.t > o.t)
+	}
+	switch l.t {
+	case Bool:
+		a, b := l.v.(bool), o.v.(bool)
+		return sign(!a && b, a && !b)
+	case Int64:
+		a, b := l.v.(int64), o.v.(int64)
+		return sign(a < b, a > b)
+	case Float64:
+		a, b := l.v.(float64), o.v.(float64)
+		if math.IsNaN(a) || math.IsNaN(b) {
+			return sign(math.IsNaN(a) && !math.IsNaN(b), !math.IsNaN(a) && math.IsNaN(b))
+		}
+		return sign(a < b, a > b)
+	case Text:
+		return strings.Compare(l.v.(string), o.v.(string))
+	case Blob:
+		return bytes.Compare(l.v.([]byte), o.v.([]byte))
+	}
+	return 0
+}
+
 // Bool returns the value of a literal as a boolean.
 func (l *Literal) Bool() (bool, error) {
 	if l.t != Bool {
